@@ -118,6 +118,10 @@ def run_case(case):
         # exact multiples of the fragment size go out from a file-like source (the end-of-data test of the file path), the
         # others alternate between bytes and file-like
         src = io.BytesIO(raw) if (n % F == 0 and n >= F) else (raw if (n + len(sizes)) % 2 or n <= F else io.BytesIO(raw))
+        if n == 3 * F + 2 or n == 2 * F + 1:
+            # a raw stream that legally returns less than it was asked for
+            from .c06 import ShortReader
+            src = ShortReader(raw)
         msg = msggen.make('CStoreRQMessage', sop_class=A, data_set=src)
         try:
             a.send(msg, 1)
